@@ -44,7 +44,10 @@ Inductive tok :=
 | T_h | T_j | T_k | T_l
 | T_H | T_M | T_L
 | T_percent | T_bar | T_gg | T_g_ | T_ge (WORD : bool) | T_gm | T_G
-| T_explicit (o : tobj).
+| T_explicit (o : tobj)
+| T_rep (reverse : bool).          (* ; and , reading the SESSION's vi_state.last_character_find
+                                     (Model/C08_Session.v resolves it to T_repeat); outside a
+                                     session there is no stored search *)
 
 Definition text_object (k : tok) (d : doc) (n : Z) (hc : bool) : tores :=
   match k with
@@ -130,6 +133,7 @@ Definition text_object (k : tok) (d : doc) (n : Z) (hc : bool) : tores :=
   | T_gm => TO (mk1 0) true
   | T_G => TO (mkto (translate_row_col_to_index d (line_count d - 1) 0 - dcur d) 0 LINEW) false
   | T_explicit o => TO o false
+  | T_rep _ => TO (mk1 0) true
   end.
 
 (* ---------------------------------------------------------------------- *)
@@ -175,6 +179,7 @@ Definition dec_tok (s : sx) : option tok :=
   | L [A 29; A w; A _; A _] => Some (T_ge (w =? 1))
   | L [A 30; A _; A _; A _] => Some T_gm
   | L [A 31; A _; A _; A _] => Some T_G
+  | L [A 32; A rv; A _; A _] => Some (T_rep (rv =? 1))
   | _ => None
   end.
 
